@@ -16,6 +16,7 @@ IMPORTS = "From DtlsV Require Import Lib.Bytes Crypto.C10Run."
 # (leg, package, test regexp, site reported for mismatches)
 HARNESSES = [
     ("prf", "./pkg/crypto/prf", "^TestVerifC10Prf$", "pkg/crypto/prf/prf.go"),
+    ("suite", "./pkg/crypto/ciphersuite", "^TestVerifC10Suite$", "pkg/crypto/ciphersuite"),
 ]
 
 
@@ -93,13 +94,13 @@ def run(chk):
             for i in bad:
                 c = cases[i]
                 sig = signature_of(c)
-                k = (c.get("site", site), str(sig))
+                k = (c.get("site") or site, str(sig))
                 if k in reported:
                     continue
                 reported.add(k)
                 found_input = True
                 mv = model_value(c, "c10val_%s_%d" % (leg, i))
-                chk.finding(c.get("site", site), sig,
+                chk.finding(c.get("site") or site, sig,
                             "%s: Go output differs from the RFC formula (independent model Crypto/C10*.v)"
                             % c.get("tag", c["fn"]),
                             {"how": "call the Go function named in `function` with the hex inputs `in` and numeric "
